@@ -1303,7 +1303,9 @@ def covar_errors(params, data, errs, B, C=None):
             covar = np.transpose(J).dot(J)
             onesigma = np.sqrt(np.diag(inv(covar)))
         except (np.linalg.LinAlgError, ValueError) as _:
-            onesigma = [-2] * len(mask[0])
+            # no errors can be determined: report them as missing (nan is
+            # turned into ERR_MASK when the errors are copied to a source)
+            onesigma = [np.nan] * len(mask[0])
 
     # onesigma has one entry per free parameter, ordered by component
     j = 0
